@@ -317,13 +317,10 @@ def volume_file_to_precomputed(volume_filename,
                         img.dataobj)
     if is_rgb:
         proxy = np.asarray(img.dataobj)
-        new_proxy = proxy.view(dtype=np.uint8, type=np.ndarray)
-        third = int(new_proxy.shape[0] / 3)
-        new_dataobj = np.stack([
-            new_proxy[0:third],
-            new_proxy[third:2*third],
-            new_proxy[2*third:]
-        ], axis=-1)
+        # One channel per field of the structured data type (R, G, B),
+        # independently of the memory layout of the array
+        new_dataobj = np.stack([proxy[name] for name in proxy.dtype.names],
+                               axis=-1)
         img = nibabel.Nifti1Image(new_dataobj, img.affine)
 
     accessor = neuroglancer_scripts.accessor.get_accessor_for_url(
